@@ -110,6 +110,17 @@ claim("C08",
       "scipy.signal.convolve/correlate not modelled deductively: the definition/adjoint clause is bounded-only (D<=2 (+one 3-D), lengths<=5, strides<=3).",
       "contract-based deductive verification of the shape arithmetic (symbolic execution, z3) + bounded run-time contract check for the sums")
 
+claim("C10",
+      "The real wavelet.get_wavelet_shape / fwt / iwt and linop.Wavelet / InverseWavelet are executed for symbolic 1-3-D extents, every axes choice and a symbolic "
+      "level against an ASSUMED PyWavelets contract (orthogonal wavelet, zero extension, even extents: coefficient map K real-linear, waverecn = K^T, K^T K = I) and "
+      "the resize contract (C09). Proved: fwt's output has exactly the advertised shape (same padded shape / wavelet / mode / axes / level reach PyWavelets on both "
+      "routes); every extent handed to PyWavelets is even; iwt(fwt(x)) == x element by element (pad to even, round trip, centre crop); iwt is the adjoint of fwt "
+      "coefficientwise; W.H(W(x)) == x and the adjoint obligations for the Linop classes; norm preservation follows by the proved algebra lemma "
+      "(adjoint + left inverse => isometry).",
+      "PyWavelets itself is compiled code outside /repo: its orthogonality / perfect reconstruction is an assumed contract, probed (bounded) on the installed library for "
+      "all haar/db/sym/coif wavelets - never counted as proved. Floating-point round-off not modelled.",
+      "contract-based deductive verification of sigpy's wrapper (symbolic execution against an assumed dependency contract, linear-form equality, z3) + bounded native probe of the dependency contract")
+
 claim("C16",
       "The real mri.linop.Sense is executed on symbolic maps / weights / coordinates of symbolic 2-D and 3-D image extents against the callee contracts of "
       "linop.py's real classes; for every coil count <= 3 (4 thorough) and EVERY coil_batch_size 1..C+1 its forward and adjoint results are proved equal, "
